@@ -23,7 +23,7 @@ ASSUMPTIONS = [
     "file names are valid UTF-8; no symlinks/special files",
 ]
 BUDGET = {
-    "quick": {"examples": 400, "workers": 8, "time_cap": 70},
+    "quick": {"examples": 650, "workers": 8, "time_cap": 70},
     "thorough": {"examples": 15000, "workers": 14, "time_cap": 900},
 }
 GRID_DESC = "single-file hybrids over sizes k*B+d, k*P+d (k<=6 quick / 17 thorough) x P x both creators"
